@@ -229,6 +229,7 @@ pub fn run(ctx: &Ctx) -> ! {
     let n_deep = jobs.iter().filter(|j| j.depth >= 2 && j.chunk == 0).count();
     let results = par_map(&jobs, ctx.threads(), |_, j| run_job(&setup, j));
     let mut bases = 0;
+    let mut examples: BTreeMap<String, serde_json::Value> = BTreeMap::new();
     let sets_before = rep.evaluations;
     // merge smallest queries first so that the kept counterexample of each key is a small one
     let mut order: Vec<usize> = (0..results.len()).collect();
@@ -237,6 +238,9 @@ pub fn run(ctx: &Ctx) -> ! {
     for i in order {
         let r = results[i].take().unwrap();
         bases += r.bases;
+        if let Some(e) = r.example {
+            examples.entry(e["format"].as_str().unwrap_or("").to_string()).or_insert(e);
+        }
         rep.merge(r.rep);
     }
     rep.extra(
@@ -250,6 +254,7 @@ pub fn run(ctx: &Ctx) -> ! {
             "jobs": n_jobs,
             "jobs_with_2_alterations_at_once": n_deep,
             "honest_answers": bases,
+            "smallest_false_statement_certified_per_format": examples,
             "evaluations": rep.evaluations - sets_before,
         }),
     );
